@@ -217,6 +217,10 @@ pub fn check(c: &Case, forms_seen: &mut Vec<String>) -> Result<u64, String> {
             }
             let b: DryocBox<Vec<u8>, Vec<u8>, Vec<u8>> = e(DryocBox::seal(msg.as_slice(), &rpk.to_vec()), "DryocBox<Vec..>::seal")?;
             check_sealed(&mut cx, "DryocBox<Vec,Vec,Vec>::seal", &b.to_vec(), msg, &rpk, &rsk)?;
+            // detached form of a sealed box through the object API: parts out, parts in, still the same wire
+            let (pt, pd, pe) = b.clone().into_parts();
+            let rb: DryocBox<Vec<u8>, Vec<u8>, Vec<u8>> = DryocBox::from_parts(pt, pd, pe);
+            check_sealed(&mut cx, "DryocBox::seal -> into_parts -> from_parts -> to_vec", &rb.to_vec(), msg, &rpk, &rsk)?;
             // libsodium-sealed opens under every dryoc form
             let ls = sodium::box_seal(msg, &rpk);
             let mat = Material {
@@ -526,10 +530,56 @@ pub fn hist_strat() -> impl proptest::strategy::Strategy<Value = HistCase> {
     })
 }
 
+/// message containers of statically known size: `[u8; N]` and `&[u8; N]` (what `b"..."` literals are)
+pub fn array_messages(seed: u64, ev: &mut Evidence) -> Result<(), Violation> {
+    use dryoc::dryocbox::DryocBox;
+    use dryoc::dryocsecretbox::DryocSecretBox;
+    let mut f = Fill::new(seed, "C01:array-messages");
+    let (key, nonce): ([u8; 32], [u8; 24]) = (f.arr(), f.arr());
+    let (rpk, _rsk) = sodium::box_seed_keypair(&f.arr::<32>());
+    let (_spk, ssk) = sodium::box_seed_keypair(&f.arr::<32>());
+    macro_rules! one {
+        ($n:expr) => {{
+            let m: [u8; $n] = f.arr();
+            let want = sodium::secretbox_easy(&m, &nonce, &key);
+            let wantb = sodium::box_easy(&m, &nonce, &rpk, &ssk).ok_or_else(|| Violation::new("C01", "harness", "harness: box_easy", json!({})))?;
+            let mref: &[u8; $n] = &m;
+            let outs: Vec<(&str, Result<Result<Vec<u8>, String>, String>, &Vec<u8>)> = vec![
+                ("DryocSecretBox::encrypt(message: &[u8; N])", no_panic(|| { let b: DryocSecretBox<StackByteArray<16>, Vec<u8>> = DryocSecretBox::encrypt(&m, &nonce, &key); Ok(b.to_vec()) }), &want),
+                ("DryocSecretBox::encrypt(message: &&[u8; N])", no_panic(|| { let b: DryocSecretBox<StackByteArray<16>, Vec<u8>> = DryocSecretBox::encrypt(&mref, &nonce, &key); Ok(b.to_vec()) }), &want),
+                ("DryocBox::encrypt(message: &[u8; N])", no_panic(|| { let b: DryocBox<StackByteArray<32>, StackByteArray<16>, Vec<u8>> = DryocBox::encrypt(&m, &nonce, &rpk, &ssk).map_err(|e| format!("{e:?}"))?; Ok(b.to_vec()) }), &wantb),
+                ("DryocBox::encrypt(message: &&[u8; N])", no_panic(|| { let b: DryocBox<StackByteArray<32>, StackByteArray<16>, Vec<u8>> = DryocBox::encrypt(&mref, &nonce, &rpk, &ssk).map_err(|e| format!("{e:?}"))?; Ok(b.to_vec()) }), &wantb),
+            ];
+            for (what, got, want) in outs {
+                ev.eval(1);
+                ev.class("array-typed message containers ([u8; N], &[u8; N])");
+                ev.nontrivial(fnv64(&[what.as_bytes(), &[$n as u8]]));
+                match got {
+                    Ok(Ok(g)) if &g == want => {}
+                    other => return Err(Violation::new("C01", "array-message", format!("{what} with N = {}: {} instead of libsodium's {}", $n, match other { Ok(Ok(g)) => hx(&g), Ok(Err(e)) => format!("Err({e})"), Err(p) => format!("panic: {p}") }, hx(want)), json!({"seed": seed, "n": $n}))),
+                }
+            }
+        }};
+    }
+    one!(0);
+    one!(1);
+    one!(5);
+    one!(7);
+    one!(8);
+    one!(9);
+    one!(16);
+    one!(33);
+    one!(100);
+    Ok(())
+}
+
 pub fn run(ctx: &mut Ctx) -> Result<(), Violation> {
     let nightly_part = cfg!(feature = "nightly") && std::env::var("VERIF_PART").as_deref() == Ok("nightly");
     ctx.rule = "Call histories (proptest, shrinking): sequences of box (5 forms) / seal / beforenm / secretbox / open over a pool of 3 identities, so adjacent calls share one key half but not the other; every ciphertext must equal libsodium's and every pending ciphertext must open later in any order. Enumerated: every message length 0..=L plus {1023,1024,1025,4095,4096,4097,65535,65537} x K seeded (key, nonce, key pairs from seeds via libsodium, content class) x EVERY sealing form: classic secretbox/box/afternm in easy, detached, in-place; seal; object API encrypt/precalc_encrypt/seal with to_vec/to_bytes/into_vec/into_parts/from_bytes over array, StackByteArray, Vec, &[u8] containers (heap, locked, read-only locked containers in the nightly sub-run). Oracle: tag and ciphertext bytes == libsodium's for the same inputs; beforenm == libsodium; the resulting wire opens to the original under libsodium and under EVERY dryoc opener (20 forms); sealed boxes (ephemeral key chosen by dryoc): layout epk||box(msg, BLAKE2b-24(epk||rpk)) checked with the reference and opened by libsodium, libsodium-sealed opened by dryoc. Non-trivial: message length >= 1; distinct = hash(len, key, nonce, seeds, part).".into();
     ctx.assumptions = vec!["libsodium 1.0.18 is the byte-level reference".into(), "key pairs are derived from seeds by libsodium (honest pairs)".into()];
+    if !nightly_part {
+        array_messages(ctx.seed, &mut ctx.ev)?;
+    }
     let l = ctx.tier.pick(600usize, 1100);
     let k = ctx.tier.pick(if nightly_part { 2usize } else { 6 }, if nightly_part { 4 } else { 24 });
     let mut lens: Vec<usize> = (0..=if nightly_part { l.min(ctx.tier.pick(320, 600)) } else { l }).collect();
@@ -593,6 +643,9 @@ pub fn run(ctx: &mut Ctx) -> Result<(), Violation> {
 }
 
 pub fn replay(v: &Violation) -> Result<(), String> {
+    if v.kind == "array-message" {
+        return array_messages(v.case["seed"].as_u64().unwrap_or(1), &mut Evidence::default()).map_err(|v| v.message);
+    }
     if v.kind == "aead-history" {
         let c: HistCase = from_case(&v.case)?;
         return check_history(&c).map(|_| ());
